@@ -166,6 +166,16 @@ func (r *runner) eng(op Op) (string, string) {
 		err := s.Close()
 		os.Remove(blocker)
 		return rc(err), ""
+	case "openfail":
+		// Open whose last step fails: volume.meta.tmp cannot be created
+		blocker := filepath.Join(r.dir, "volume.meta.tmp")
+		os.Remove(blocker)
+		if err := os.Mkdir(blocker, 0700); err != nil {
+			return "err", "harness: " + err.Error()
+		}
+		err := s.Open()
+		os.Remove(blocker)
+		return rc(err), ""
 	case "crash":
 		// process death: the Server object and its open files are abandoned
 		r.abandon()
